@@ -178,6 +178,10 @@ def run(chk):
     line_table_rules(chk, by_norm)
     operand_and_closure_rules(chk, by_norm, d['types'])
     jump_parity_rule(chk, by_norm)
+    chk.rule('C14-R12', 'a literal relative jump operand selected by version skips the same instructions on every target: the byte distance written for <= 3.9 is twice the '
+                        'instruction distance written for 3.10 (and 3.7 = 3.8 = 3.9); otherwise one of the targets jumps between or past instructions — in tail position past the end of the code')
+    from sa.props.c13 import literal_jump_rule
+    literal_jump_rule(chk, fns, rid='C14-R12')
     # ---- R3 who-may-write
     n3 = 0
     for f in d['fns']:
